@@ -3,7 +3,7 @@ schemes (H1-H6), decided by structured matching and a symbolic evaluation of
 the stride formula."""
 import ast
 
-from ..model import (AnalysisError, FunctionInfo, dotted, norm_text,
+from ..model import (AnalysisError, FunctionInfo, expand_aug, dotted, norm_text,
                      names_read, const_value, is_none)
 from ..cfg import structural_guards
 from ..rules import wiring
@@ -111,6 +111,7 @@ def run(prog, res):
 def _defs(fn):
   d = {}
   for st in ast.walk(fn.node):
+    st = expand_aug(st)
     if isinstance(st, ast.Assign):
       for t in st.targets:
         nm = dotted(t)
